@@ -89,36 +89,36 @@ def contracts(unit, im, f):
     selfx = deref('self', self_ref)
     if tn is None:
         if name == 'new':
-            return Contract(ensures=['ret == %s_new(%s)' % (p, ', '.join(fs))])
+            return Contract(ensures=['ret == %s_new(%s)' % (p, ', '.join('$%d' % i for i in range(n)))])
         if name.startswith('unit_'):
             k = fs.index(name[-1])
             args = ['s_one()' if i == k else 's_zero()' for i in range(n)]
             return Contract(ensures=['ret == %s_new(%s)' % (p, ', '.join(args))])
         if name == 'perp_dot':
-            return Contract(ensures=['ret == v2_perp_dot(self, other)'])
+            return Contract(ensures=['ret == v2_perp_dot(self, $1)'])
         if name == 'cross':
-            return Contract(ensures=['ret == v3_cross(self, other)'])
+            return Contract(ensures=['ret == v3_cross(self, $1)'])
         if name == 'extend':
             last = XYZW[n]
-            return Contract(ensures=['ret == v%d_new(%s, %s)' % (n + 1, ', '.join('self.' + x for x in fs), last)])
+            return Contract(ensures=['ret == v%d_new(%s, %s)' % (n + 1, ', '.join('self.' + x for x in fs), '$1')])
         if name == 'truncate':
             return Contract(ensures=['ret == v%d_new(%s)' % (n - 1, ', '.join('self.' + x for x in fs[:-1]))])
         if name == 'truncate_n':
             cl = []
             for k in range(4):
                 keep = [x for i, x in enumerate(fs) if i != k]
-                cl.append('n == %d ==> ret == v3_new(%s)' % (k, ', '.join('self.' + x for x in keep)))
-            return Contract(requires=['0 <= n < 4'], ensures=cl)
+                cl.append('$1 == %d ==> ret == v3_new(%s)' % (k, ', '.join('self.' + x for x in keep)))
+            return Contract(requires=['0 <= $1 < 4'], ensures=cl)
         return None
     if tn == 'Clone' and name == 'clone':
         return Contract(ensures=['ret == *self'])
     if tn == 'PartialEq' and name == 'eq':
-        return Contract(ensures=['ret == %s_eq(*self, *other)' % p], spec='%s_eq(*self, *rhs)' % p)
+        return Contract(ensures=['ret == %s_eq(*self, *$1)' % p], spec='%s_eq(*self, *rhs)' % p)
     if tn == 'Array':
         if name == 'len':
             return Contract(ensures=['ret == %d' % n])
         if name == 'from_value':
-            return Contract(ensures=['ret == %s_from_value(scalar)' % p])
+            return Contract(ensures=['ret == %s_from_value($0)' % p])
         if name == 'sum':
             return Contract(ensures=['ret == %s_sum(self)' % p])
         if name == 'product':
@@ -134,34 +134,34 @@ def contracts(unit, im, f):
     if tn in ('Add', 'Sub') and re.search(r'Vector', ta):
         _, rref = base_type(ta)
         sp = '%s_%s' % (p, OPSPEC[tn])
-        return Contract(ensures=['ret == %s(%s, %s)' % (sp, selfx, deref('other', rref))],
+        return Contract(ensures=['ret == %s(%s, %s)' % (sp, selfx, deref('$1', rref))],
                         spec='%s(%s, %s)' % (sp, selfx, deref('rhs', rref)))
     if tn in ('Mul', 'Div', 'Rem') and ta.strip() == 'S':
         sp = '%s_%s' % (p, SCALSPEC[tn])
-        return Contract(ensures=['ret == %s(%s, other)' % (sp, selfx)], spec='%s(%s, rhs)' % (sp, selfx))
+        return Contract(ensures=['ret == %s(%s, $1)' % (sp, selfx)], spec='%s(%s, rhs)' % (sp, selfx))
     if tn in ('AddAssign', 'SubAssign') and re.search(r'Vector', ta):
         sp = '%s_%s' % (p, OPSPEC[tn[:-6]])
-        return Contract(ensures=['*final(self) == %s(*old(self), other)' % sp], spec='%s(*self, rhs)' % sp)
+        return Contract(ensures=['*final(self) == %s(*old(self), $1)' % sp], spec='%s(*self, rhs)' % sp)
     if tn in ('MulAssign', 'DivAssign', 'RemAssign') and ta.strip() == 'S':
         sp = '%s_%s' % (p, SCALSPEC[tn[:-6]])
-        return Contract(ensures=['*final(self) == %s(*old(self), scalar)' % sp], spec='%s(*self, rhs)' % sp)
+        return Contract(ensures=['*final(self) == %s(*old(self), $1)' % sp], spec='%s(*self, rhs)' % sp)
     if tn == 'ElementWise':
         table = EW_S if ta.strip() == 'S' else EW_V
         m = re.fullmatch(r'(add|sub|mul|div|rem)(_assign)?_element_wise', name)
         if m:
             sp = '%s_%s' % (p, table[m.group(1)])
             if m.group(2):
-                return Contract(ensures=['*final(self) == %s(*old(self), rhs)' % sp])
-            return Contract(ensures=['ret == %s(self, rhs)' % sp])
+                return Contract(ensures=['*final(self) == %s(*old(self), $1)' % sp])
+            return Contract(ensures=['ret == %s(self, $1)' % sp])
     if tn == 'InnerSpace':
         if name == 'dot':
-            return Contract(ensures=['ret == %s_dot(self, other)' % p])
+            return Contract(ensures=['ret == %s_dot(self, $1)' % p])
         if name == 'magnitude2':
             return Contract(ensures=['ret == %s_dot(self, self)' % p])
     if tn == 'MetricSpace' and name == 'distance2':
-        return Contract(ensures=['ret == %s_dot(%s_sub(other, self), %s_sub(other, self))' % (p, p, p)])
+        return Contract(ensures=['ret == %s_dot(%s_sub($1, self), %s_sub($1, self))' % (p, p, p)])
     if tn == 'VectorSpace' and name == 'lerp':
-        return Contract(ensures=['ret == %s_lerp(self, other, amount)' % p])
+        return Contract(ensures=['ret == %s_lerp(self, $1, $2)' % p])
     return None
 
 
